@@ -676,3 +676,19 @@ class deadline:
         signal.setitimer(signal.ITIMER_REAL, 0)
         signal.signal(signal.SIGALRM, self._old)
         return False
+
+
+def same_decimal(a, b, nd):
+    """'a and b have the same nd-digit decimal rendering' (digit by digit, b < 10^nd): ONE boolean.
+    Equivalent to a == b for b < 10^nd, but stated on the digits the solver already reasons about."""
+    if not SYMBOLIC:
+        return a == b
+    with NoTracing():
+        av = a.var if isinstance(a, SymbolicInt) else z3.IntVal(int(a))
+        bv = b.var if isinstance(b, SymbolicInt) else z3.IntVal(int(b))
+        conds = [av >= 0, av < z3.IntVal(10 ** nd)]
+        for k in range(nd):
+            qa = av if k == 0 else av / z3.IntVal(10 ** k)
+            qb = bv if k == 0 else bv / z3.IntVal(10 ** k)
+            conds.append(qa % 10 == qb % 10)
+        return SymbolicBool(z3.And(*conds))
